@@ -31,9 +31,15 @@ Gen/Streamtabs.vos Gen/Streamtabs.vok Gen/Streamtabs.required_vos: Gen/Streamtab
 Model/Adapters.vo Model/Adapters.glob Model/Adapters.v.beautified Model/Adapters.required_vo: Model/Adapters.v Lib/Base.vo Lib/Sort.vo Gen/Bytest.vo
 Model/Adapters.vio: Model/Adapters.v Lib/Base.vio Lib/Sort.vio Gen/Bytest.vio
 Model/Adapters.vos Model/Adapters.vok Model/Adapters.required_vos: Model/Adapters.v Lib/Base.vos Lib/Sort.vos Gen/Bytest.vos
+Model/Assertions.vo Model/Assertions.glob Model/Assertions.v.beautified Model/Assertions.required_vo: Model/Assertions.v Lib/Base.vo
+Model/Assertions.vio: Model/Assertions.v Lib/Base.vio
+Model/Assertions.vos Model/Assertions.vok Model/Assertions.required_vos: Model/Assertions.v Lib/Base.vos
 Model/AsyncRun.vo Model/AsyncRun.glob Model/AsyncRun.v.beautified Model/AsyncRun.required_vo: Model/AsyncRun.v Lib/Base.vo Gen/Spinnertabs.vo
 Model/AsyncRun.vio: Model/AsyncRun.v Lib/Base.vio Gen/Spinnertabs.vio
 Model/AsyncRun.vos Model/AsyncRun.vok Model/AsyncRun.required_vos: Model/AsyncRun.v Lib/Base.vos Gen/Spinnertabs.vos
+Model/Concur.vo Model/Concur.glob Model/Concur.v.beautified Model/Concur.required_vo: Model/Concur.v Lib/Base.vo Model/Tfr.vo
+Model/Concur.vio: Model/Concur.v Lib/Base.vio Model/Tfr.vio
+Model/Concur.vos Model/Concur.vok Model/Concur.required_vos: Model/Concur.v Lib/Base.vos Model/Tfr.vos
 Model/Content.vo Model/Content.glob Model/Content.v.beautified Model/Content.required_vo: Model/Content.v Lib/Base.vo Model/Utf8.vo Model/MimeCt.vo Gen/Ctc16.vo
 Model/Content.vio: Model/Content.v Lib/Base.vio Model/Utf8.vio Model/MimeCt.vio Gen/Ctc16.vio
 Model/Content.vos Model/Content.vok Model/Content.required_vos: Model/Content.v Lib/Base.vos Model/Utf8.vos Model/MimeCt.vos Gen/Ctc16.vos
@@ -82,6 +88,9 @@ Model/Suites.vos Model/Suites.vok Model/Suites.required_vos: Model/Suites.v Lib/
 Model/Tags.vo Model/Tags.glob Model/Tags.v.beautified Model/Tags.required_vo: Model/Tags.v Lib/Base.vo
 Model/Tags.vio: Model/Tags.v Lib/Base.vio
 Model/Tags.vos Model/Tags.vok Model/Tags.required_vos: Model/Tags.v Lib/Base.vos
+Model/TextRepr.vo Model/TextRepr.glob Model/TextRepr.v.beautified Model/TextRepr.required_vo: Model/TextRepr.v Lib/Base.vo
+Model/TextRepr.vio: Model/TextRepr.v Lib/Base.vio
+Model/TextRepr.vos Model/TextRepr.vok Model/TextRepr.required_vos: Model/TextRepr.v Lib/Base.vos
 Model/Tfr.vo Model/Tfr.glob Model/Tfr.v.beautified Model/Tfr.required_vo: Model/Tfr.v Lib/Base.vo
 Model/Tfr.vio: Model/Tfr.v Lib/Base.vio
 Model/Tfr.vos Model/Tfr.vok Model/Tfr.required_vos: Model/Tfr.v Lib/Base.vos
@@ -100,9 +109,15 @@ Spec/C03.vos Spec/C03.vok Spec/C03.required_vos: Spec/C03.v Lib/Base.vos Gen/Han
 Spec/C04.vo Spec/C04.glob Spec/C04.v.beautified Spec/C04.required_vo: Spec/C04.v Lib/Base.vo Model/Result.vo
 Spec/C04.vio: Spec/C04.v Lib/Base.vio Model/Result.vio
 Spec/C04.vos Spec/C04.vok Spec/C04.required_vos: Spec/C04.v Lib/Base.vos Model/Result.vos
+Spec/C05.vo Spec/C05.glob Spec/C05.v.beautified Spec/C05.required_vo: Spec/C05.v Lib/Base.vo Gen/Handlers.vo Model/Run.vo Spec/Run.vo
+Spec/C05.vio: Spec/C05.v Lib/Base.vio Gen/Handlers.vio Model/Run.vio Spec/Run.vio
+Spec/C05.vos Spec/C05.vok Spec/C05.required_vos: Spec/C05.v Lib/Base.vos Gen/Handlers.vos Model/Run.vos Spec/Run.vos
 Spec/C06.vo Spec/C06.glob Spec/C06.v.beautified Spec/C06.required_vo: Spec/C06.v Lib/Base.vo Lib/Sort.vo Model/Matchers.vo
 Spec/C06.vio: Spec/C06.v Lib/Base.vio Lib/Sort.vio Model/Matchers.vio
 Spec/C06.vos Spec/C06.vok Spec/C06.required_vos: Spec/C06.v Lib/Base.vos Lib/Sort.vos Model/Matchers.vos
+Spec/C07.vo Spec/C07.glob Spec/C07.v.beautified Spec/C07.required_vo: Spec/C07.v Lib/Base.vo Lib/Sort.vo Model/TextRepr.vo Model/Assertions.vo
+Spec/C07.vio: Spec/C07.v Lib/Base.vio Lib/Sort.vio Model/TextRepr.vio Model/Assertions.vio
+Spec/C07.vos Spec/C07.vok Spec/C07.required_vos: Spec/C07.v Lib/Base.vos Lib/Sort.vos Model/TextRepr.vos Model/Assertions.vos
 Spec/C08.vo Spec/C08.glob Spec/C08.v.beautified Spec/C08.required_vo: Spec/C08.v Lib/Base.vo Model/Adapters.vo
 Spec/C08.vio: Spec/C08.v Lib/Base.vio Model/Adapters.vio
 Spec/C08.vos Spec/C08.vok Spec/C08.required_vos: Spec/C08.v Lib/Base.vos Model/Adapters.vos
@@ -118,6 +133,9 @@ Spec/C11.vos Spec/C11.vok Spec/C11.required_vos: Spec/C11.v Lib/Base.vos Model/R
 Spec/C12.vo Spec/C12.glob Spec/C12.v.beautified Spec/C12.required_vo: Spec/C12.v Lib/Base.vo Model/Tfr.vo
 Spec/C12.vio: Spec/C12.v Lib/Base.vio Model/Tfr.vio
 Spec/C12.vos Spec/C12.vok Spec/C12.required_vos: Spec/C12.v Lib/Base.vos Model/Tfr.vos
+Spec/C13.vo Spec/C13.glob Spec/C13.v.beautified Spec/C13.required_vo: Spec/C13.v Lib/Base.vo Model/Tfr.vo Model/Concur.vo Spec/C12.vo
+Spec/C13.vio: Spec/C13.v Lib/Base.vio Model/Tfr.vio Model/Concur.vio Spec/C12.vio
+Spec/C13.vos Spec/C13.vok Spec/C13.required_vos: Spec/C13.v Lib/Base.vos Model/Tfr.vos Model/Concur.vos Spec/C12.vos
 Spec/C14.vo Spec/C14.glob Spec/C14.v.beautified Spec/C14.required_vo: Spec/C14.v Lib/Base.vo Model/AsyncRun.vo
 Spec/C14.vio: Spec/C14.v Lib/Base.vio Model/AsyncRun.vio
 Spec/C14.vos Spec/C14.vok Spec/C14.required_vos: Spec/C14.v Lib/Base.vos Model/AsyncRun.vos
@@ -154,9 +172,15 @@ Corr/C03.vos Corr/C03.vok Corr/C03.required_vos: Corr/C03.v Lib/Base.vos Gen/Han
 Corr/C04.vo Corr/C04.glob Corr/C04.v.beautified Corr/C04.required_vo: Corr/C04.v Lib/Base.vo Model/Result.vo Spec/C04.vo
 Corr/C04.vio: Corr/C04.v Lib/Base.vio Model/Result.vio Spec/C04.vio
 Corr/C04.vos Corr/C04.vok Corr/C04.required_vos: Corr/C04.v Lib/Base.vos Model/Result.vos Spec/C04.vos
+Corr/C05.vo Corr/C05.glob Corr/C05.v.beautified Corr/C05.required_vo: Corr/C05.v Lib/Base.vo Gen/Handlers.vo Model/Run.vo Spec/Run.vo Spec/C05.vo
+Corr/C05.vio: Corr/C05.v Lib/Base.vio Gen/Handlers.vio Model/Run.vio Spec/Run.vio Spec/C05.vio
+Corr/C05.vos Corr/C05.vok Corr/C05.required_vos: Corr/C05.v Lib/Base.vos Gen/Handlers.vos Model/Run.vos Spec/Run.vos Spec/C05.vos
 Corr/C06.vo Corr/C06.glob Corr/C06.v.beautified Corr/C06.required_vo: Corr/C06.v Lib/Base.vo Lib/Sort.vo Model/Matchers.vo Spec/C06.vo
 Corr/C06.vio: Corr/C06.v Lib/Base.vio Lib/Sort.vio Model/Matchers.vio Spec/C06.vio
 Corr/C06.vos Corr/C06.vok Corr/C06.required_vos: Corr/C06.v Lib/Base.vos Lib/Sort.vos Model/Matchers.vos Spec/C06.vos
+Corr/C07.vo Corr/C07.glob Corr/C07.v.beautified Corr/C07.required_vo: Corr/C07.v Lib/Base.vo Lib/Sort.vo Model/TextRepr.vo Model/Assertions.vo Spec/C07.vo
+Corr/C07.vio: Corr/C07.v Lib/Base.vio Lib/Sort.vio Model/TextRepr.vio Model/Assertions.vio Spec/C07.vio
+Corr/C07.vos Corr/C07.vok Corr/C07.required_vos: Corr/C07.v Lib/Base.vos Lib/Sort.vos Model/TextRepr.vos Model/Assertions.vos Spec/C07.vos
 Corr/C08.vo Corr/C08.glob Corr/C08.v.beautified Corr/C08.required_vo: Corr/C08.v Lib/Base.vo Model/Adapters.vo Spec/C08.vo
 Corr/C08.vio: Corr/C08.v Lib/Base.vio Model/Adapters.vio Spec/C08.vio
 Corr/C08.vos Corr/C08.vok Corr/C08.required_vos: Corr/C08.v Lib/Base.vos Model/Adapters.vos Spec/C08.vos
@@ -172,6 +196,9 @@ Corr/C11.vos Corr/C11.vok Corr/C11.required_vos: Corr/C11.v Lib/Base.vos Model/R
 Corr/C12.vo Corr/C12.glob Corr/C12.v.beautified Corr/C12.required_vo: Corr/C12.v Lib/Base.vo Model/Tfr.vo Spec/C12.vo
 Corr/C12.vio: Corr/C12.v Lib/Base.vio Model/Tfr.vio Spec/C12.vio
 Corr/C12.vos Corr/C12.vok Corr/C12.required_vos: Corr/C12.v Lib/Base.vos Model/Tfr.vos Spec/C12.vos
+Corr/C13.vo Corr/C13.glob Corr/C13.v.beautified Corr/C13.required_vo: Corr/C13.v Lib/Base.vo Model/Tfr.vo Model/Concur.vo Spec/C12.vo Spec/C13.vo
+Corr/C13.vio: Corr/C13.v Lib/Base.vio Model/Tfr.vio Model/Concur.vio Spec/C12.vio Spec/C13.vio
+Corr/C13.vos Corr/C13.vok Corr/C13.required_vos: Corr/C13.v Lib/Base.vos Model/Tfr.vos Model/Concur.vos Spec/C12.vos Spec/C13.vos
 Corr/C14.vo Corr/C14.glob Corr/C14.v.beautified Corr/C14.required_vo: Corr/C14.v Lib/Base.vo Model/AsyncRun.vo Spec/C14.vo
 Corr/C14.vio: Corr/C14.v Lib/Base.vio Model/AsyncRun.vio Spec/C14.vio
 Corr/C14.vos Corr/C14.vok Corr/C14.required_vos: Corr/C14.v Lib/Base.vos Model/AsyncRun.vos Spec/C14.vos
@@ -196,15 +223,18 @@ Corr/C20.vos Corr/C20.vok Corr/C20.required_vos: Corr/C20.v Lib/Base.vos Model/D
 Proof/C01.vo Proof/C01.glob Proof/C01.v.beautified Proof/C01.required_vo: Proof/C01.v Lib/Base.vo Gen/Handlers.vo Model/Run.vo Spec/Run.vo Spec/C01.vo Corr/C01.vo Proof/RunCore.vo
 Proof/C01.vio: Proof/C01.v Lib/Base.vio Gen/Handlers.vio Model/Run.vio Spec/Run.vio Spec/C01.vio Corr/C01.vio Proof/RunCore.vio
 Proof/C01.vos Proof/C01.vok Proof/C01.required_vos: Proof/C01.v Lib/Base.vos Gen/Handlers.vos Model/Run.vos Spec/Run.vos Spec/C01.vos Corr/C01.vos Proof/RunCore.vos
-Proof/C02.vo Proof/C02.glob Proof/C02.v.beautified Proof/C02.required_vo: Proof/C02.v Lib/Base.vo Gen/Handlers.vo Model/Run.vo Spec/Run.vo Spec/C02.vo Corr/C02.vo
-Proof/C02.vio: Proof/C02.v Lib/Base.vio Gen/Handlers.vio Model/Run.vio Spec/Run.vio Spec/C02.vio Corr/C02.vio
-Proof/C02.vos Proof/C02.vok Proof/C02.required_vos: Proof/C02.v Lib/Base.vos Gen/Handlers.vos Model/Run.vos Spec/Run.vos Spec/C02.vos Corr/C02.vos
+Proof/C02.vo Proof/C02.glob Proof/C02.v.beautified Proof/C02.required_vo: Proof/C02.v Lib/Base.vo Gen/Handlers.vo Model/Run.vo Spec/Run.vo Spec/C02.vo Corr/C02.vo Proof/RunCore.vo
+Proof/C02.vio: Proof/C02.v Lib/Base.vio Gen/Handlers.vio Model/Run.vio Spec/Run.vio Spec/C02.vio Corr/C02.vio Proof/RunCore.vio
+Proof/C02.vos Proof/C02.vok Proof/C02.required_vos: Proof/C02.v Lib/Base.vos Gen/Handlers.vos Model/Run.vos Spec/Run.vos Spec/C02.vos Corr/C02.vos Proof/RunCore.vos
 Proof/C03.vo Proof/C03.glob Proof/C03.v.beautified Proof/C03.required_vo: Proof/C03.v Lib/Base.vo Gen/Handlers.vo Model/Run.vo Spec/Run.vo Spec/C03.vo Corr/C03.vo Proof/RunCore.vo
 Proof/C03.vio: Proof/C03.v Lib/Base.vio Gen/Handlers.vio Model/Run.vio Spec/Run.vio Spec/C03.vio Corr/C03.vio Proof/RunCore.vio
 Proof/C03.vos Proof/C03.vok Proof/C03.required_vos: Proof/C03.v Lib/Base.vos Gen/Handlers.vos Model/Run.vos Spec/Run.vos Spec/C03.vos Corr/C03.vos Proof/RunCore.vos
-Proof/C04.vo Proof/C04.glob Proof/C04.v.beautified Proof/C04.required_vo: Proof/C04.v Lib/Base.vo Model/Result.vo Spec/C04.vo Corr/C04.vo
-Proof/C04.vio: Proof/C04.v Lib/Base.vio Model/Result.vio Spec/C04.vio Corr/C04.vio
-Proof/C04.vos Proof/C04.vok Proof/C04.required_vos: Proof/C04.v Lib/Base.vos Model/Result.vos Spec/C04.vos Corr/C04.vos
+Proof/C04.vo Proof/C04.glob Proof/C04.v.beautified Proof/C04.required_vo: Proof/C04.v Lib/Base.vo Gen/Resulttabs.vo Model/Result.vo Spec/C04.vo Corr/C04.vo
+Proof/C04.vio: Proof/C04.v Lib/Base.vio Gen/Resulttabs.vio Model/Result.vio Spec/C04.vio Corr/C04.vio
+Proof/C04.vos Proof/C04.vok Proof/C04.required_vos: Proof/C04.v Lib/Base.vos Gen/Resulttabs.vos Model/Result.vos Spec/C04.vos Corr/C04.vos
+Proof/C05.vo Proof/C05.glob Proof/C05.v.beautified Proof/C05.required_vo: Proof/C05.v Lib/Base.vo Gen/Handlers.vo Model/Run.vo Spec/Run.vo Spec/C05.vo Corr/C05.vo Proof/RunCore.vo
+Proof/C05.vio: Proof/C05.v Lib/Base.vio Gen/Handlers.vio Model/Run.vio Spec/Run.vio Spec/C05.vio Corr/C05.vio Proof/RunCore.vio
+Proof/C05.vos Proof/C05.vok Proof/C05.required_vos: Proof/C05.v Lib/Base.vos Gen/Handlers.vos Model/Run.vos Spec/Run.vos Spec/C05.vos Corr/C05.vos Proof/RunCore.vos
 Proof/C06.vo Proof/C06.glob Proof/C06.v.beautified Proof/C06.required_vo: Proof/C06.v Lib/Base.vo Lib/Sort.vo Model/Matchers.vo Spec/C06.vo Corr/C06.vo Proof/C06Setwise.vo Proof/C06Leaves.vo
 Proof/C06.vio: Proof/C06.v Lib/Base.vio Lib/Sort.vio Model/Matchers.vio Spec/C06.vio Corr/C06.vio Proof/C06Setwise.vio Proof/C06Leaves.vio
 Proof/C06.vos Proof/C06.vok Proof/C06.required_vos: Proof/C06.v Lib/Base.vos Lib/Sort.vos Model/Matchers.vos Spec/C06.vos Corr/C06.vos Proof/C06Setwise.vos Proof/C06Leaves.vos
@@ -214,6 +244,15 @@ Proof/C06Leaves.vos Proof/C06Leaves.vok Proof/C06Leaves.required_vos: Proof/C06L
 Proof/C06Setwise.vo Proof/C06Setwise.glob Proof/C06Setwise.v.beautified Proof/C06Setwise.required_vo: Proof/C06Setwise.v Lib/Base.vo Lib/Sort.vo Model/Matchers.vo Spec/C06.vo
 Proof/C06Setwise.vio: Proof/C06Setwise.v Lib/Base.vio Lib/Sort.vio Model/Matchers.vio Spec/C06.vio
 Proof/C06Setwise.vos Proof/C06Setwise.vok Proof/C06Setwise.required_vos: Proof/C06Setwise.v Lib/Base.vos Lib/Sort.vos Model/Matchers.vos Spec/C06.vos
+Proof/C07.vo Proof/C07.glob Proof/C07.v.beautified Proof/C07.required_vo: Proof/C07.v Lib/Base.vo Spec/C07.vo Corr/C07.vo
+Proof/C07.vio: Proof/C07.v Lib/Base.vio Spec/C07.vio Corr/C07.vio
+Proof/C07.vos Proof/C07.vok Proof/C07.required_vos: Proof/C07.v Lib/Base.vos Spec/C07.vos Corr/C07.vos
+Proof/C07Names.vo Proof/C07Names.glob Proof/C07Names.v.beautified Proof/C07Names.required_vo: Proof/C07Names.v Lib/Base.vo Model/Assertions.vo
+Proof/C07Names.vio: Proof/C07Names.v Lib/Base.vio Model/Assertions.vio
+Proof/C07Names.vos Proof/C07Names.vok Proof/C07Names.required_vos: Proof/C07Names.v Lib/Base.vos Model/Assertions.vos
+Proof/C07Repr.vo Proof/C07Repr.glob Proof/C07Repr.v.beautified Proof/C07Repr.required_vo: Proof/C07Repr.v Lib/Base.vo Model/TextRepr.vo
+Proof/C07Repr.vio: Proof/C07Repr.v Lib/Base.vio Model/TextRepr.vio
+Proof/C07Repr.vos Proof/C07Repr.vok Proof/C07Repr.required_vos: Proof/C07Repr.v Lib/Base.vos Model/TextRepr.vos
 Proof/C08.vo Proof/C08.glob Proof/C08.v.beautified Proof/C08.required_vo: Proof/C08.v Lib/Base.vo Lib/Sort.vo Model/Adapters.vo Spec/C08.vo Corr/C08.vo
 Proof/C08.vio: Proof/C08.v Lib/Base.vio Lib/Sort.vio Model/Adapters.vio Spec/C08.vio Corr/C08.vio
 Proof/C08.vos Proof/C08.vok Proof/C08.required_vos: Proof/C08.v Lib/Base.vos Lib/Sort.vos Model/Adapters.vos Spec/C08.vos Corr/C08.vos
@@ -229,6 +268,9 @@ Proof/C11.vos Proof/C11.vok Proof/C11.required_vos: Proof/C11.v Lib/Base.vos Mod
 Proof/C12.vo Proof/C12.glob Proof/C12.v.beautified Proof/C12.required_vo: Proof/C12.v Lib/Base.vo Model/Tfr.vo Spec/C12.vo Corr/C12.vo
 Proof/C12.vio: Proof/C12.v Lib/Base.vio Model/Tfr.vio Spec/C12.vio Corr/C12.vio
 Proof/C12.vos Proof/C12.vok Proof/C12.required_vos: Proof/C12.v Lib/Base.vos Model/Tfr.vos Spec/C12.vos Corr/C12.vos
+Proof/C13.vo Proof/C13.glob Proof/C13.v.beautified Proof/C13.required_vo: Proof/C13.v Lib/Base.vo Model/Tfr.vo Model/Concur.vo Spec/C12.vo Spec/C13.vo Corr/C13.vo Proof/C12.vo
+Proof/C13.vio: Proof/C13.v Lib/Base.vio Model/Tfr.vio Model/Concur.vio Spec/C12.vio Spec/C13.vio Corr/C13.vio Proof/C12.vio
+Proof/C13.vos Proof/C13.vok Proof/C13.required_vos: Proof/C13.v Lib/Base.vos Model/Tfr.vos Model/Concur.vos Spec/C12.vos Spec/C13.vos Corr/C13.vos Proof/C12.vos
 Proof/C14.vo Proof/C14.glob Proof/C14.v.beautified Proof/C14.required_vo: Proof/C14.v Lib/Base.vo Model/AsyncRun.vo Spec/C14.vo Corr/C14.vo
 Proof/C14.vio: Proof/C14.v Lib/Base.vio Model/AsyncRun.vio Spec/C14.vio Corr/C14.vio
 Proof/C14.vos Proof/C14.vok Proof/C14.required_vos: Proof/C14.v Lib/Base.vos Model/AsyncRun.vos Spec/C14.vos Corr/C14.vos
@@ -259,24 +301,30 @@ Proof/Utf8Sweep.vos Proof/Utf8Sweep.vok Proof/Utf8Sweep.required_vos: Proof/Utf8
 Props/C01.vo Props/C01.glob Props/C01.v.beautified Props/C01.required_vo: Props/C01.v Lib/Base.vo Gen/Handlers.vo Model/Run.vo Spec/Run.vo Spec/C01.vo Corr/C01.vo Proof/RunCore.vo Proof/C01.vo
 Props/C01.vio: Props/C01.v Lib/Base.vio Gen/Handlers.vio Model/Run.vio Spec/Run.vio Spec/C01.vio Corr/C01.vio Proof/RunCore.vio Proof/C01.vio
 Props/C01.vos Props/C01.vok Props/C01.required_vos: Props/C01.v Lib/Base.vos Gen/Handlers.vos Model/Run.vos Spec/Run.vos Spec/C01.vos Corr/C01.vos Proof/RunCore.vos Proof/C01.vos
-Props/C02.vo Props/C02.glob Props/C02.v.beautified Props/C02.required_vo: Props/C02.v Lib/Base.vo Gen/Handlers.vo Model/Run.vo Spec/Run.vo Spec/C02.vo Corr/C02.vo Proof/C02.vo
-Props/C02.vio: Props/C02.v Lib/Base.vio Gen/Handlers.vio Model/Run.vio Spec/Run.vio Spec/C02.vio Corr/C02.vio Proof/C02.vio
-Props/C02.vos Props/C02.vok Props/C02.required_vos: Props/C02.v Lib/Base.vos Gen/Handlers.vos Model/Run.vos Spec/Run.vos Spec/C02.vos Corr/C02.vos Proof/C02.vos
-Props/C03.vo Props/C03.glob Props/C03.v.beautified Props/C03.required_vo: Props/C03.v Lib/Base.vo Gen/Handlers.vo Model/Run.vo Spec/Run.vo Spec/C03.vo Corr/C03.vo Proof/C03.vo
-Props/C03.vio: Props/C03.v Lib/Base.vio Gen/Handlers.vio Model/Run.vio Spec/Run.vio Spec/C03.vio Corr/C03.vio Proof/C03.vio
-Props/C03.vos Props/C03.vok Props/C03.required_vos: Props/C03.v Lib/Base.vos Gen/Handlers.vos Model/Run.vos Spec/Run.vos Spec/C03.vos Corr/C03.vos Proof/C03.vos
+Props/C02.vo Props/C02.glob Props/C02.v.beautified Props/C02.required_vo: Props/C02.v Lib/Base.vo Gen/Handlers.vo Model/Run.vo Spec/Run.vo Spec/C02.vo Corr/C02.vo Proof/RunCore.vo Proof/C02.vo
+Props/C02.vio: Props/C02.v Lib/Base.vio Gen/Handlers.vio Model/Run.vio Spec/Run.vio Spec/C02.vio Corr/C02.vio Proof/RunCore.vio Proof/C02.vio
+Props/C02.vos Props/C02.vok Props/C02.required_vos: Props/C02.v Lib/Base.vos Gen/Handlers.vos Model/Run.vos Spec/Run.vos Spec/C02.vos Corr/C02.vos Proof/RunCore.vos Proof/C02.vos
+Props/C03.vo Props/C03.glob Props/C03.v.beautified Props/C03.required_vo: Props/C03.v Lib/Base.vo Gen/Handlers.vo Model/Run.vo Spec/Run.vo Spec/C03.vo Corr/C03.vo Proof/RunCore.vo Proof/C03.vo
+Props/C03.vio: Props/C03.v Lib/Base.vio Gen/Handlers.vio Model/Run.vio Spec/Run.vio Spec/C03.vio Corr/C03.vio Proof/RunCore.vio Proof/C03.vio
+Props/C03.vos Props/C03.vok Props/C03.required_vos: Props/C03.v Lib/Base.vos Gen/Handlers.vos Model/Run.vos Spec/Run.vos Spec/C03.vos Corr/C03.vos Proof/RunCore.vos Proof/C03.vos
 Props/C04.vo Props/C04.glob Props/C04.v.beautified Props/C04.required_vo: Props/C04.v Lib/Base.vo Model/Result.vo Spec/C04.vo Corr/C04.vo Proof/C04.vo
 Props/C04.vio: Props/C04.v Lib/Base.vio Model/Result.vio Spec/C04.vio Corr/C04.vio Proof/C04.vio
 Props/C04.vos Props/C04.vok Props/C04.required_vos: Props/C04.v Lib/Base.vos Model/Result.vos Spec/C04.vos Corr/C04.vos Proof/C04.vos
+Props/C05.vo Props/C05.glob Props/C05.v.beautified Props/C05.required_vo: Props/C05.v Lib/Base.vo Gen/Handlers.vo Model/Run.vo Spec/Run.vo Spec/C05.vo Corr/C05.vo Proof/C05.vo
+Props/C05.vio: Props/C05.v Lib/Base.vio Gen/Handlers.vio Model/Run.vio Spec/Run.vio Spec/C05.vio Corr/C05.vio Proof/C05.vio
+Props/C05.vos Props/C05.vok Props/C05.required_vos: Props/C05.v Lib/Base.vos Gen/Handlers.vos Model/Run.vos Spec/Run.vos Spec/C05.vos Corr/C05.vos Proof/C05.vos
 Props/C06.vo Props/C06.glob Props/C06.v.beautified Props/C06.required_vo: Props/C06.v Lib/Base.vo Model/Matchers.vo Spec/C06.vo Corr/C06.vo Proof/C06Setwise.vo Proof/C06Leaves.vo Proof/C06.vo
 Props/C06.vio: Props/C06.v Lib/Base.vio Model/Matchers.vio Spec/C06.vio Corr/C06.vio Proof/C06Setwise.vio Proof/C06Leaves.vio Proof/C06.vio
 Props/C06.vos Props/C06.vok Props/C06.required_vos: Props/C06.v Lib/Base.vos Model/Matchers.vos Spec/C06.vos Corr/C06.vos Proof/C06Setwise.vos Proof/C06Leaves.vos Proof/C06.vos
+Props/C07.vo Props/C07.glob Props/C07.v.beautified Props/C07.required_vo: Props/C07.v Lib/Base.vo Spec/C07.vo Corr/C07.vo
+Props/C07.vio: Props/C07.v Lib/Base.vio Spec/C07.vio Corr/C07.vio
+Props/C07.vos Props/C07.vok Props/C07.required_vos: Props/C07.v Lib/Base.vos Spec/C07.vos Corr/C07.vos
 Props/C08.vo Props/C08.glob Props/C08.v.beautified Props/C08.required_vo: Props/C08.v Lib/Base.vo Model/Adapters.vo Spec/C08.vo Corr/C08.vo Proof/C08.vo
 Props/C08.vio: Props/C08.v Lib/Base.vio Model/Adapters.vio Spec/C08.vio Corr/C08.vio Proof/C08.vio
 Props/C08.vos Props/C08.vok Props/C08.required_vos: Props/C08.v Lib/Base.vos Model/Adapters.vos Spec/C08.vos Corr/C08.vos Proof/C08.vos
-Props/C09.vo Props/C09.glob Props/C09.v.beautified Props/C09.required_vo: Props/C09.v Lib/Base.vo Lib/Bytestr.vo Model/Mime.vo Model/StreamRec.vo Model/StreamConv.vo Spec/C09.vo Corr/C09.vo Proof/C09.vo
-Props/C09.vio: Props/C09.v Lib/Base.vio Lib/Bytestr.vio Model/Mime.vio Model/StreamRec.vio Model/StreamConv.vio Spec/C09.vio Corr/C09.vio Proof/C09.vio
-Props/C09.vos Props/C09.vok Props/C09.required_vos: Props/C09.v Lib/Base.vos Lib/Bytestr.vos Model/Mime.vos Model/StreamRec.vos Model/StreamConv.vos Spec/C09.vos Corr/C09.vos Proof/C09.vos
+Props/C09.vo Props/C09.glob Props/C09.v.beautified Props/C09.required_vo: Props/C09.v Lib/Base.vo Lib/Sort.vo Lib/Bytestr.vo Gen/Streamtabs.vo Model/Mime.vo Model/StreamRec.vo Model/StreamConv.vo Spec/C09.vo Corr/C09.vo Proof/C09.vo
+Props/C09.vio: Props/C09.v Lib/Base.vio Lib/Sort.vio Lib/Bytestr.vio Gen/Streamtabs.vio Model/Mime.vio Model/StreamRec.vio Model/StreamConv.vio Spec/C09.vio Corr/C09.vio Proof/C09.vio
+Props/C09.vos Props/C09.vok Props/C09.required_vos: Props/C09.v Lib/Base.vos Lib/Sort.vos Lib/Bytestr.vos Gen/Streamtabs.vos Model/Mime.vos Model/StreamRec.vos Model/StreamConv.vos Spec/C09.vos Corr/C09.vos Proof/C09.vos
 Props/C10.vo Props/C10.glob Props/C10.v.beautified Props/C10.required_vo: Props/C10.v Lib/Base.vo Lib/Bytestr.vo Gen/Streamtabs.vo Model/StreamRec.vo Spec/C10.vo Corr/C10.vo Proof/C10.vo
 Props/C10.vio: Props/C10.v Lib/Base.vio Lib/Bytestr.vio Gen/Streamtabs.vio Model/StreamRec.vio Spec/C10.vio Corr/C10.vio Proof/C10.vio
 Props/C10.vos Props/C10.vok Props/C10.required_vos: Props/C10.v Lib/Base.vos Lib/Bytestr.vos Gen/Streamtabs.vos Model/StreamRec.vos Spec/C10.vos Corr/C10.vos Proof/C10.vos
@@ -286,6 +334,9 @@ Props/C11.vos Props/C11.vok Props/C11.required_vos: Props/C11.v Lib/Base.vos Mod
 Props/C12.vo Props/C12.glob Props/C12.v.beautified Props/C12.required_vo: Props/C12.v Lib/Base.vo Model/Tfr.vo Spec/C12.vo Corr/C12.vo Proof/C12.vo
 Props/C12.vio: Props/C12.v Lib/Base.vio Model/Tfr.vio Spec/C12.vio Corr/C12.vio Proof/C12.vio
 Props/C12.vos Props/C12.vok Props/C12.required_vos: Props/C12.v Lib/Base.vos Model/Tfr.vos Spec/C12.vos Corr/C12.vos Proof/C12.vos
+Props/C13.vo Props/C13.glob Props/C13.v.beautified Props/C13.required_vo: Props/C13.v Lib/Base.vo Model/Tfr.vo Model/Concur.vo Spec/C12.vo Spec/C13.vo Corr/C13.vo Proof/C13.vo
+Props/C13.vio: Props/C13.v Lib/Base.vio Model/Tfr.vio Model/Concur.vio Spec/C12.vio Spec/C13.vio Corr/C13.vio Proof/C13.vio
+Props/C13.vos Props/C13.vok Props/C13.required_vos: Props/C13.v Lib/Base.vos Model/Tfr.vos Model/Concur.vos Spec/C12.vos Spec/C13.vos Corr/C13.vos Proof/C13.vos
 Props/C14.vo Props/C14.glob Props/C14.v.beautified Props/C14.required_vo: Props/C14.v Lib/Base.vo Model/AsyncRun.vo Spec/C14.vo Corr/C14.vo Proof/C14.vo
 Props/C14.vio: Props/C14.v Lib/Base.vio Model/AsyncRun.vio Spec/C14.vio Corr/C14.vio Proof/C14.vio
 Props/C14.vos Props/C14.vok Props/C14.required_vos: Props/C14.v Lib/Base.vos Model/AsyncRun.vos Spec/C14.vos Corr/C14.vos Proof/C14.vos
